@@ -125,7 +125,13 @@ def site_inputs(mm: MetaModel, tau: Dict, cap: int = 400) -> List[Any]:
         if k not in seen:
             seen.add(k)
             uniq.append(j)
-    return uniq[:cap]
+    uniq = uniq[:cap]
+    from lib.sweeps import reverse_keys
+
+    # the same objects with their members in the opposite order (a discriminator must not depend on the order the sender chose)
+    rev = [reverse_keys(j) for j in uniq if isinstance(j, dict) and len(j) > 1][:12]
+    rev += [[reverse_keys(e) for e in j] for j in uniq if isinstance(j, list) and j and all(isinstance(e, dict) and len(e) > 1 for e in j)][:6]
+    return uniq + rev
 
 
 
@@ -424,8 +430,16 @@ def differential(live, mm: MetaModel, res, inputs: List[Any]) -> Tuple[int, List
         n += 1
         # downstream rejection (structure of the chosen class raises) is not the handler's path: compare the choice only
         ok = nat in preds or (nat == "raise" and any(p not in ("pass", "None", "[]") for p in preds)) or (not preds and unknown)
-        if preds and len(set(preds)) > 1 and nat != "raise":
+        if preds and len(set(preds)) > 1 and nat != "raise" and not getattr(sym, "key_order_nondet", False):
             ok = ok and False
+        if ok and getattr(sym, "key_order_nondet", False) and isinstance(j, dict) and len(j) > 1:
+            # the encoding says the outcome may depend on the order of the keys in the payload: the other order must be predicted as well
+            jr = dict(reversed(list(j.items())))
+            try:
+                nat_r = canon(_form_native(live, res.site.handler(jr, res.site.annotation), jr))
+            except Exception:  # noqa
+                nat_r = "raise"
+            ok = nat_r in preds or (nat_r == "raise" and any(p not in ("pass", "None", "[]") for p in preds))
         if not ok:
             bad.append({"handler": res.site.handler_name, "input": j, "predicted": sorted(set(preds)), "native": nat})
     return n, bad
